@@ -71,6 +71,9 @@ class Ctx:
         # ids that are not among the given properties (X..: specification growth beyond the list) keep
         # their evidence apart, so that evidence/ holds exactly one file per claimed property
         self.evdir = os.path.join(ROOT, "evidence" if pid.startswith("C") else os.path.join("extras", "evidence"))
+        if "VERIF_REPO" in os.environ:
+            # a trial against some other tree (tools/try_seed.sh): keep its evidence out of evidence/
+            self.evdir = os.path.join(broot, "trial-evidence")
         os.makedirs(self.evdir, exist_ok=True)
         self.thorough = self.tier == "thorough"
         self.mc = []          # model-checking runs
